@@ -11,6 +11,9 @@
 #include <igris/buffer.h>
 #include <igris/util/string.h>
 
+// input class of the sub-check that is running: the suffix of every signature produced below
+static const char *g_sfx = ".long_input";
+
 static void long_split_char_join(const Str &s, char d)
 {
     auto isd = [d](char c) { return c == d; };
@@ -18,34 +21,34 @@ static void long_split_char_join(const Str &s, char d)
     if (want.size() > 255 || s.size() > 255)
         mc::nontrivial();
     PL b(s);
-    mc::crash_context("C19.split_char.memory.long_input");
+    mc::crash_context("C19.split_char.memory%s", g_sfx);
     Toks got = igris::split(igris::buffer((const void *)b.p, b.n), d);
     mc::crash_context("C19.harness");
     mc::outcome(mc::fmt("split_char ntok=%zu", got.size()));
     if (got != want)
-        mc::violation("C19.split_char.value.long_input", "split(%s, %s) = %s, maximal runs are %s", escb(s).c_str(),
+        mc::violation(Str("C19.split_char.value") + g_sfx, "split(%s, %s) = %s, maximal runs are %s", escb(s).c_str(),
                       esc(Str(1, d)).c_str(), escb(got).c_str(), escb(want).c_str());
     // join: inverse on this token list, through the definition of split and through the real split
-    mc::crash_context("C19.join.memory.long_input");
+    mc::crash_context("C19.join.memory%s", g_sfx);
     Str j = igris::join(want, d);
     mc::crash_context("C19.harness");
     if (ref_split(j, isd) != want)
-        mc::violation("C19.join.inverse.long_input", "join(%s, %s) = %s does not split back", escb(want).c_str(),
+        mc::violation(Str("C19.join.inverse") + g_sfx, "join(%s, %s) = %s does not split back", escb(want).c_str(),
                       esc(Str(1, d)).c_str(), escb(j).c_str());
     {
         PL jb(j, 1);
-        mc::crash_context("C19.split_char.memory.long_input");
+        mc::crash_context("C19.split_char.memory%s", g_sfx);
         Toks rt = igris::split(igris::buffer((const void *)jb.p, jb.n), d);
         mc::crash_context("C19.harness");
         if (rt != want)
-            mc::violation("C19.split_join.roundtrip.long_input", "split(join(%s)) = %s", escb(want).c_str(), escb(rt).c_str());
+            mc::violation(Str("C19.split_join.roundtrip") + g_sfx, "split(join(%s)) = %s", escb(want).c_str(), escb(rt).c_str());
     }
     CS ds(Str(1, d), 2), e1("", 3), e2("", 4);
-    mc::crash_context("C19.join_iter.memory.long_input");
+    mc::crash_context("C19.join_iter.memory%s", g_sfx);
     Str ji = w_join_iter(want, ds.p, e1.p, e2.p);
     mc::crash_context("C19.harness");
     if (ref_split(ji, isd) != want)
-        mc::violation("C19.join_iter.inverse.long_input", "join(begin,end,%s,\"\",\"\") of %s = %s does not split back",
+        mc::violation(Str("C19.join_iter.inverse") + g_sfx, "join(begin,end,%s,\"\",\"\") of %s = %s does not split back",
                       esc(Str(1, d)).c_str(), escb(want).c_str(), escb(ji).c_str());
 }
 
@@ -55,12 +58,12 @@ static void long_split_delims(const Str &s, const char *ds)
     Toks want = ref_split(s, isd);
     PL b(s);
     CS dl(ds, 1);
-    mc::crash_context("C19.split_delims.memory.long_input");
+    mc::crash_context("C19.split_delims.memory%s", g_sfx);
     Toks got = igris::split(igris::buffer((const void *)b.p, b.n), (const char *)dl.p);
     mc::crash_context("C19.harness");
     mc::outcome(mc::fmt("split_delims ntok=%zu", got.size()));
     if (got != want)
-        mc::violation("C19.split_delims.value.long_input", "split(%s, %s) = %s, maximal runs are %s", escb(s).c_str(),
+        mc::violation(Str("C19.split_delims.value") + g_sfx, "split(%s, %s) = %s, maximal runs are %s", escb(s).c_str(),
                       esc(ds).c_str(), escb(got).c_str(), escb(want).c_str());
 }
 
@@ -68,12 +71,12 @@ static void long_trim(const Str &s)
 {
     Str want = ref_trim(s);
     PL b(s);
-    mc::crash_context("C19.trim.memory.long_input");
+    mc::crash_context("C19.trim.memory%s", g_sfx);
     Str got = w_trim(b.p, b.n);
     mc::crash_context("C19.harness");
     mc::outcome(mc::fmt("trim removed=%zu", s.size() - got.size()));
     if (got != want)
-        mc::violation("C19.trim.value.long_input", "trim(%s) = %s, want %s", escb(s).c_str(), escb(got).c_str(),
+        mc::violation(Str("C19.trim.value") + g_sfx, "trim(%s) = %s, want %s", escb(s).c_str(), escb(got).c_str(),
                       escb(want).c_str());
 }
 
@@ -81,12 +84,12 @@ static void long_cmdargs(const Str &s)
 {
     Toks want = ref_cmdargs(s);
     PL b(s);
-    mc::crash_context("C19.split_cmdargs.memory.long_input");
+    mc::crash_context("C19.split_cmdargs.memory%s", g_sfx);
     Toks got = igris::split_cmdargs(igris::buffer((const void *)b.p, b.n));
     mc::crash_context("C19.harness");
     mc::outcome(mc::fmt("cmdargs ntok=%zu", got.size()));
     if (got != want)
-        mc::violation("C19.split_cmdargs.value.long_input", "split_cmdargs(%s) = %s, want %s", escb(s).c_str(),
+        mc::violation(Str("C19.split_cmdargs.value") + g_sfx, "split_cmdargs(%s) = %s, want %s", escb(s).c_str(),
                       escb(got).c_str(), escb(want).c_str());
 }
 
@@ -98,15 +101,15 @@ static void long_split_n(const Str &s, int argcmax)
     PL b(s);
     Exact av((size_t)argcmax * sizeof(char *), 1, 0);
     char **argv = (char **)av.p;
-    mc::crash_context("C19.argvc_split_n.memory.long_input");
+    mc::crash_context("C19.argvc_split_n.memory%s", g_sfx);
     int argc = w_argvc_split_n(b.p, (int)b.n, argv, argcmax);
     mc::crash_context("C19.harness");
     mc::outcome(mc::fmt("split_n argc=%d", argc));
     if (argc > argcmax)
-        mc::violation("C19.argvc_split_n.argc_exceeds_max.long_input", "split_n(%s, argcmax=%d) returned %d", escb(s).c_str(),
+        mc::violation(Str("C19.argvc_split_n.argc_exceeds_max") + g_sfx, "split_n(%s, argcmax=%d) returned %d", escb(s).c_str(),
                       argcmax, argc);
     else if (argc != want)
-        mc::violation("C19.argvc_split_n.argc.long_input", "split_n(%s, argcmax=%d) returned %d, want %d", escb(s).c_str(),
+        mc::violation(Str("C19.argvc_split_n.argc") + g_sfx, "split_n(%s, argcmax=%d) returned %d, want %d", escb(s).c_str(),
                       argcmax, argc, want);
     for (int i = 0; i < argc && i < want; i++)
     {
@@ -114,13 +117,13 @@ static void long_split_n(const Str &s, int argcmax)
         const Run &r = runs[i];
         if (off != (long)r.off || memcmp(b.p + r.off, s.data() + r.off, r.len) != 0)
         {
-            mc::violation("C19.argvc_split_n.argv.long_input", "split_n(%s, argcmax=%d): argv[%d] at offset %ld, want %zu (+%zu)",
+            mc::violation(Str("C19.argvc_split_n.argv") + g_sfx, "split_n(%s, argcmax=%d): argv[%d] at offset %ld, want %zu (+%zu)",
                           escb(s).c_str(), argcmax, i, off, r.off, r.len);
             break;
         }
         if (r.off + r.len < b.n && b.p[r.off + r.len] != 0)
         {
-            mc::violation("C19.argvc_split_n.unterminated.long_input", "split_n(%s, argcmax=%d): argv[%d] not terminated",
+            mc::violation(Str("C19.argvc_split_n.unterminated") + g_sfx, "split_n(%s, argcmax=%d): argv[%d] not terminated",
                           escb(s).c_str(), argcmax, i);
             break;
         }
@@ -136,13 +139,13 @@ static void long_creader(const Str &s)
     {
         long before = w_creader_curpos(r);
         const char *tok = nullptr;
-        mc::crash_context("C19.creader_readline.memory.long_input");
+        mc::crash_context("C19.creader_readline.memory%s", g_sfx);
         long len = w_creader_readline(r, &tok);
         mc::crash_context("C19.harness");
         long cur = w_creader_curpos(r);
         if (cur < 0 || cur > (long)b.n || len < -1 || tok < b.p || (len >= 0 && tok + len > b.p + b.n))
         {
-            mc::violation("C19.creader_readline.extent.long_input", "%s: line [%ld,+%ld), cursor %ld, buffer %zu", escb(s).c_str(),
+            mc::violation(Str("C19.creader_readline.extent") + g_sfx, "%s: line [%ld,+%ld), cursor %ld, buffer %zu", escb(s).c_str(),
                           (long)(tok - b.p), len, cur, b.n);
             break;
         }
@@ -152,13 +155,13 @@ static void long_creader(const Str &s)
     }
     mc::outcome(mc::fmt("creader lines=%ld", lines));
     w_creader_del(r);
-    check_creader_skip(s, ".long_input", [](const Str &x) { return escb(x); });
+    check_creader_skip(s, g_sfx, [](const Str &x) { return escb(x); });
 }
 
 static void long_memmem(const Str &h, const Str &nd)
 {
     PL hb(h, 0), nb(nd, 1);
-    mc::crash_context("C19.memmem.memory.long_input");
+    mc::crash_context("C19.memmem.memory%s", g_sfx);
     char *g = (char *)igris_memmem(hb.p, hb.n, nb.p, nb.n);
     mc::crash_context("C19.harness");
     long got = g ? (long)(g - hb.p) : -1, want = ref_memmem(h, nd);
@@ -166,7 +169,7 @@ static void long_memmem(const Str &h, const Str &nd)
     if (want > 255)
         mc::nontrivial();
     if (got != want)
-        mc::violation("C19.memmem.value.long_input", "igris_memmem(%s, %s) = %ld, first occurrence is %ld", escb(h).c_str(),
+        mc::violation(Str("C19.memmem.value") + g_sfx, "igris_memmem(%s, %s) = %ld, first occurrence is %ld", escb(h).c_str(),
                       escb(nd).c_str(), got, want);
 }
 
@@ -175,16 +178,23 @@ static void long_replace(const Str &src, const Str &sub, const Str &rep)
     Str want = ref_replace(src, sub, rep);
     if (want.size() > 255)
         mc::nontrivial();
-    mc::crash_context("C19.replace.memory.long_input");
+    mc::crash_context("C19.replace.memory%s", g_sfx);
     Str got = igris::replace(src, sub, rep);
     mc::crash_context("C19.harness");
     mc::outcome(mc::fmt("replace delta=%ld", (long)got.size() - (long)src.size()));
     if (got != want)
-        mc::violation("C19.replace.value.long_input", "replace(%s, %s, %s) = %s, want %s", escb(src).c_str(), escb(sub).c_str(),
+        mc::violation(Str("C19.replace.value") + g_sfx, "replace(%s, %s, %s) = %s, want %s", escb(src).c_str(), escb(sub).c_str(),
                       escb(rep).c_str(), escb(got).c_str(), escb(want).c_str());
     size_t need = want.size() + 1;
-    std::vector<size_t> sizes = {0, 1, 255, 256, 257, need - 1, need, need + 3};
-    if (mc::thorough())
+    std::vector<size_t> sizes = {0, 1, need - 1, need, need + 3};
+    bool is_long = src.size() > 100; // buffer sizes around 2^8 / 2^16 only for the long inputs
+    if (is_long)
+    {
+        sizes.push_back(255);
+        sizes.push_back(256);
+        sizes.push_back(257);
+    }
+    if (is_long && mc::thorough())
     {
         sizes.push_back(65535);
         sizes.push_back(65536);
@@ -196,14 +206,14 @@ static void long_replace(const Str &src, const Str &sub, const Str &rep)
     {
         PL in(src, 0), sb(sub, 1), rp(rep, 2);
         Exact out(maxsize, 3);
-        mc::crash_context(maxsize < need ? "C19.replace_substrings.memory.result_longer_than_maxsize.long_input"
-                                         : "C19.replace_substrings.memory.long_input");
+        mc::crash_context(maxsize < need ? "C19.replace_substrings.memory.result_longer_than_maxsize%s"
+                                         : "C19.replace_substrings.memory%s", g_sfx);
         replace_substrings(out.p, maxsize, in.p, in.n, sb.p, sb.n, rp.p, rp.n);
         mc::crash_context("C19.harness");
         if (maxsize >= need)
         {
             if (memcmp(out.p, want.data(), want.size()) != 0 || out.p[want.size()] != 0)
-                mc::violation("C19.replace_substrings.value.long_input", "replace_substrings(%s, %s, %s, maxsize=%zu) = %s, want %s",
+                mc::violation(Str("C19.replace_substrings.value") + g_sfx, "replace_substrings(%s, %s, %s, maxsize=%zu) = %s, want %s",
                               escb(src).c_str(), escb(sub).c_str(), escb(rep).c_str(), maxsize,
                               escb(Str(out.p, want.size() + 1)).c_str(), escb(want).c_str());
         }
@@ -216,6 +226,7 @@ MC_INIT
 {
     // split(char), split(delims), both joins, trim, split_cmdargs, argvc_internal_split_n, creader
     mc::add_check("long_text", [] {
+        g_sfx = ".long_input";
         int v = 0;
         Str s = long_input(' ', "long text through split/join/trim/split_cmdargs/split_n/creader", &v);
         long_split_char_join(s, ' ');
@@ -257,6 +268,7 @@ MC_INIT
 
     // igris_memmem: needle lengths {1,2,255,256,257} placed at {0,1,254,255,256,257,end} or absent
     mc::add_check("long_memmem", [] {
+        g_sfx = ".long_input";
         std::vector<size_t> Ls = long_lengths();
         static const size_t NL[5] = {1, 2, 255, 256, 257};
         int u = mc::choose((int)Ls.size() * 5 * (LONG_NPOS + 2));
@@ -304,6 +316,7 @@ MC_INIT
 
     // replace / replace_substrings: one pattern at {0,1,254,255,256,257,end}, or a pattern in every second position
     mc::add_check("long_replace", [] {
+        g_sfx = ".long_input";
         std::vector<size_t> Ls = long_lengths();
         static const char *REPS[4] = {"", "x", "xyz", "bcbc"};
         int u = mc::choose((int)Ls.size() * (LONG_NPOS + 3) * 4);
@@ -345,5 +358,72 @@ MC_INIT
         }
         mc::describe("replace/replace_substrings len=%zu %s -> %s, maxsize around 256/65536/need", L, what, esc(rep).c_str());
         long_replace(src, sub, rep);
+    });
+
+    // ---------------------------------------------------------------- bytes >= 0x80
+    // char is signed here: a comparison such as `c <= ' '`, a table or shift indexed by a char, or a cast through int
+    // behaves differently for 0x80..0xFF.  All strings of length 0..5 (thorough 6) over
+    // {space, a, LF, 0x80, 0x89, 0xA0, 0xC3, 0xE0, 0xFF}: high bytes at the edges and inside, also AS the delimiter.
+    mc::add_check("high_bytes_text", [] {
+        g_sfx = ".high_bytes";
+        static const char HB[9] = {' ', 'a', '\n', (char)0x80, (char)0x89, (char)0xA0, (char)0xC3, (char)0xE0, (char)0xFF};
+        Str s = enum_str(HB, 9, mc::thorough() ? 6 : 5, 2);
+        mc::describe("bytes>=0x80: input=%s through split/join/trim/split_cmdargs/split_n/creader/memmem/replace", esc(s).c_str());
+        bool high = false;
+        for (unsigned char c : s)
+            high |= c >= 0x80;
+        if (high)
+            mc::nontrivial();
+        long_split_char_join(s, ' ');
+        long_split_char_join(s, (char)0xFF);
+        long_split_char_join(s, (char)0x89);
+        long_split_delims(s, " ");
+        long_split_delims(s, "\x89\xE0");
+        long_split_delims(s, "");
+        long_trim(s);
+        long_cmdargs(s);
+        long_split_n(s, 2);
+        long_split_n(s, 10);
+        long_creader(s);
+        // the string as haystack / source, its own 1- and 2-byte slices and two fixed high-byte needles as needle / pattern
+        std::vector<Str> nds = {Str("\x80"), Str("\xFF\x80"), Str("a\xE0")};
+        if (s.size() >= 1)
+            nds.push_back(s.substr(s.size() - 1));
+        if (s.size() >= 2)
+            nds.push_back(s.substr(s.size() - 2));
+        for (auto &nd : nds)
+        {
+            long_memmem(s, nd);
+            long_replace(s, nd, Str("\xFF"));
+        }
+        mc::more_cases(10 + 2 * nds.size(), high ? 10 + 2 * nds.size() : 0);
+    });
+
+    // ---------------------------------------------------------------- two calls with different arguments in one case
+    // The routines are stateless: what a call returns must not depend on the call before it.  decoy, input, decoy —
+    // every call is compared with the reference of its own argument.  (Workers run many cases in one process, so a
+    // hidden static would also leak from case to case; inside one case the history is fixed and replays.)
+    mc::add_check("two_calls_text", [] {
+        g_sfx = ".second_call";
+        static const char SG[10] = {' ', 'a', 'b', '"', '\'', '/', '.', '\0', '\t', '\n'};
+        Str s = enum_str(SG, 10, mc::thorough() ? 5 : 4, 2);
+        static const Str DECOY[3] = {Str("a b"), Str(" \t"), Str("\"b a\" /.")};
+        mc::describe("each routine on decoy, then on input=%s, then on the decoy again (3 decoys)", esc(s).c_str());
+        if (!s.empty())
+            mc::nontrivial();
+        for (int d = 0; d < 3; d++)
+            for (int pass = 0; pass < 3; pass++)
+            {
+                const Str &x = pass == 1 ? s : DECOY[d];
+                long_split_char_join(x, ' ');
+                long_split_delims(x, pass == 1 ? " \t" : "ab");
+                long_trim(x);
+                long_cmdargs(x);
+                long_split_n(x, pass == 1 ? 10 : 1);
+                long_creader(x);
+                long_memmem(x, pass == 1 ? Str("a") : Str("b"));
+                long_replace(x, pass == 1 ? Str("a") : Str("b"), pass == 1 ? Str("xy") : Str(""));
+            }
+        mc::more_cases(71, s.empty() ? 0 : 71);
     });
 }
